@@ -317,14 +317,14 @@ def _closev(a, b):
     return isinstance(a, list) and len(a) == len(b) and all(_close(x, flat_eval.num(y)) for x, y in zip(a, b))
 
 
-NAME_ALPH = ['x', 'y', "z['a',%d]", 'w["q%d"]', "u['5\"',%d]", 'p[\'a\\b\',%d]', "v['{k}',%d]", 'cost[%d,"N\\S"]']
+NAME_ALPH = ['x', 'y', "z['a',%d]", 'w["q%d"]', "u['5\"',%d]", 'p[\'a\\b\',%d]', "v['{k}',%d]", 'cost[%d,"N\\S"]', 'gr\u00f6\u00dfe%d', 'prix["caf\u00e9",%d]', 'co\u00fbt_\u20ac%d']
 
 
 def main(tier, seed):
     ctx = run.Ctx('C20', tier, seed)
     exe = mpmon.exe()
     wd = ctx.workdir()
-    ncases = ctx.n(4000, 80000)
+    ncases = ctx.n(8000, 200000)
 
     def one(k):
         rng = random.Random('%d/%d' % (seed, k))
